@@ -597,17 +597,46 @@ def a17_case(col, rng, cidx, jobref):
     K = rng.choice([2, 5, 10, 30, 100]) if jobref.get("big") else rng.choice([2, 5, 10, 30])
     argl = [[Sym("arg", cidx, "k", k)] for k in range(K)]
     env_values = {i: d3.results[ids[i]] for i in setup if ids[i] in d3.results}
-    refs = [S.run_reference(sp3, a, plain, env_values=env_values) for a in argl]
-    B.reset_log()
-    probes.reset_counts()
-    B.Settings.controlled = False
-    B.Settings.stress_sleep = 0.001
+    failing_k = None
+    if rng.random() < 0.4 and any(any(a == ["p", "x"] for a in nd["args"]) for nd in sp3["nodes"]):
+        failing_k = rng.randrange(K)  # the await with this argument fails inside a node; the others must not notice
+        probes.State.fail_args = {argl[failing_k][0]}
+    bystander = {"ticks": 0, "cancelled": False}
+    try:
+        refs = [S.run_reference(sp3, a, plain, env_values=env_values) for a in argl]
+        B.reset_log()
+        probes.reset_counts()
+        B.Settings.controlled = False
+        B.Settings.stress_sleep = 0.001
 
-    async def many():
-        return await asyncio.gather(*[d3(*a) for a in argl], return_exceptions=True)
+        async def side():
+            try:
+                while not bystander.get("stop"):
+                    bystander["ticks"] += 1
+                    await asyncio.sleep(0.0005)
+            except asyncio.CancelledError:
+                bystander["cancelled"] = True
+                raise
 
-    res = probes.run_op("gather", lambda: asyncio.run(many()))
+        async def many():
+            t = asyncio.ensure_future(side())
+            try:
+                return await asyncio.gather(*[d3(*a) for a in argl], return_exceptions=True)
+            finally:
+                bystander["stop"] = True
+                try:
+                    await t
+                except asyncio.CancelledError:
+                    pass
+
+        res = probes.run_op("gather", lambda: asyncio.run(many()))
+    finally:
+        probes.State.fail_args = set()
     log = B.snapshot()
+    if failing_k is not None:
+        col.counters["c17_gathers_with_one_failing_await"] += 1
+    if bystander["cancelled"]:
+        col.violation(pid, "bystander_coroutine_cancelled_by_an_await_of_the_asyncdag", dict(awaits=K, failing_await=failing_k, source=S.render(sp)), rp)
     col.generic(log, rp)
     col.evaluations += 1
     col.counters["c17_gathers"] += 1
@@ -617,9 +646,11 @@ def a17_case(col, rng, cidx, jobref):
         for k, (rf, got) in enumerate(zip(refs, res[1])):
             col.counters["c17_concurrent_awaits"] += 1
             if rf[0] != "ok":
+                if isinstance(rf[1], probes.Injected) and not isinstance(got, BaseException):
+                    col.violation(pid, "failing_await_returned_normally", dict(index=k, value=short(got, 200), source=S.render(sp)), rp)
                 continue
             if isinstance(got, BaseException):
-                col.violation(pid, "concurrent_await_raised", dict(exc=repr(got)[:300], awaits=K, source=S.render(sp)), rp)
+                col.violation(pid, "concurrent_await_raised", dict(exc=repr(got)[:300], awaits=K, failing_await=failing_k, index=k, source=S.render(sp)), rp)
             elif not same(rf[1].result, got):
                 col.violation(pid, "concurrent_await_got_result_for_other_arguments_or_wrong_value", dict(
                     expected=short(rf[1].result, 300), got=short(got, 300), awaits=K, index=k, source=S.render(sp)), rp)
